@@ -383,7 +383,7 @@ theorem runPass_spec (p : PassT) (c : Ctx) (fuel : Nat) (h : WF c.seg) {c' : Ctx
         have hs0l : s0 ∈ l := head?_mem (by rw [← hl.first]; exact hs0)
         have j0 : JO (c.restartAt s0) l (some s0) :=
           JO.mk' hl hc (isok_of_mem hs0l) (fun x hx => next_mem hl hs0l x hx) hal
-        obtain ⟨l', j'⟩ := ruleLoop_spec p fuel _ s0 _ 0 j0 hr
+        obtain ⟨l', j'⟩ := ruleLoop_spec p _ _ s0 _ 0 j0 hr
         exact ⟨l', by rw [noteLoop_seg]; exact JO.linked j', by rw [noteLoop_seg]; exact JO.clean j', by rw [noteLoop_seg]; exact JO.alloc j'⟩
 
 /-- **a run of passes keeps the stream** -/
